@@ -411,6 +411,15 @@ def run_history(base: Base, sc, d, log, stats):
                     return core.violation(v[0], v[1], log, stats=stats)
             if (fired.get("crash") or fired.get("torn")) and F is not None and plan.get("event") is not None:
                 stats["probe_crash_over_existing_file"] = 1
+            if fired.get("crash") or fired.get("torn"):
+                # crash-model self-check: the image left by the *executed* crash path (SimCrash inside write(),
+                # dead file, destructors ignored) must equal the image computed from the recorded write log
+                exp = base.image_for({"kind": plan["kind"], "event": plan["event"], "bytes": plan.get("bytes", 0)})
+                if plan["kind"] == "crash" and plan["event"] == -1:
+                    exp = F
+                if cur() != exp:
+                    raise RuntimeError(f"harness: executed crash path left a different image than the write-log model for plan {plan}")
+                stats["probe_executed_crash_equals_log_model"] = stats.get("probe_executed_crash_equals_log_model", 0) + 1
             continue
         v = base.judge(out, F, d, "history-final" if final else "history-request")
         if v:
